@@ -3,7 +3,7 @@
     from Proofs/PushLoopProofs.v. *)
 From Coq Require Import ZArith QArith Qround List Bool NArith Permutation.
 From HK Require Import Model.Queue Model.QueueMon Model.Retry Model.Dispatcher Model.PushLoop
-  Proofs.QueueBase Proofs.QueueInv Proofs.PushLoopProofs.
+  Proofs.QueueBase Proofs.QueueInv Proofs.PushLoopProofs Proofs.PushCycleProofs.
 Import ListNotations.
 Open Scope Z_scope.
 
@@ -75,7 +75,59 @@ Example C06_micro_batch_example :
      = [(2%N, Queued, 2000000006); (3%N, Queued, 7); (4%N, Queued, 8); (5%N, Queued, 0)].
 Proof. vm_compute. split; reflexivity. Qed.
 
+(** * A whole enqueue/requeue cycle on the queue
+    Model/Dispatcher.v's [cycle] assumes that every dequeue increments the attempt by one and that a nack re-queues the
+    message while ack / mark-dead end the cycle.  On the queue model this is a theorem: a chain of rounds on message i - a
+    Dequeue that hands i out (with whatever else), then the settlement the dispatcher chooses for the answer, applied
+    inside the lease, nothing else in between - sees the attempt numbers a+1, a+2, ..., ends exactly where [cycle] says
+    with exactly as many sends, and leaves the message delivered (removed when delivered messages are not retained) or
+    dead with the reason, its attempt counter at a + sends. *)
+Theorem C06_cycle_on_the_queue_is_the_cycle : forall fl c rc i s answers atts s' t,
+  cycle_on_queue fl c rc i s answers atts s' t -> forall m,
+  Inv s -> state_of i s = Some m ->
+  let n := length answers in
+  let tr := cycle n rc (m_attempt m + 1) (beh_of answers) (draw_of answers) 0 in
+  Inv s'
+  /\ atts = map (fun k => m_attempt m + 1 + Z.of_nat k) (seq 0 n)
+  /\ snd tr = Some t /\ sends tr = Z.of_nat n
+  /\ final_ok c i s' t (m_attempt m + Z.of_nat n).
+Proof. exact cycle_on_queue_is_cycle. Qed.
+
+Theorem C06_cycle_on_the_queue_sends_bounded : forall fl c rc i s answers atts s' t m,
+  cycle_on_queue fl c rc i s answers atts s' t -> Inv s -> state_of i s = Some m ->
+  Z.of_nat (length answers) <= Z.max 1 (rc_max rc + 1 - m_attempt m).
+Proof. exact cycle_on_queue_sends_bounded. Qed.
+
+Definition ex_rc2 : retry_cfg := {| rc_max := 2; rc_base := 1000000000; rc_cap := 8000000000; rc_jitter := 0 |}.
+Definition ex_s0 : state :=
+  mkState [mkMsg 7 1 1 Queued 0 0 0 0 0 0 0 None 0; mkMsg 8 1 1 Queued 0 0 0 0 0 0 0 None 0] [7; 8]%N None 0 [].
+Definition ex_cfg : cfg := mkCfg 0 false 0 0 0 0 0 0.
+(** non-vacuity: 503 then 200 on a memory queue holding a second ready message; the bystander stays queued *)
+Example C06_cycle_on_the_queue_example : exists s', cycle_on_queue Mem ex_cfg ex_rc2 7 ex_s0
+    [mkAnswer (RStatus 503) 0; mkAnswer (RStatus 200) 0] [1; 2] s' TDelivered /\ state_of 7 s' = None /\ (exists m8, state_of 8 s' = Some m8 /\ m_st m8 = Queued).
+Proof.
+  eexists. split.
+  - eapply cq_retry.
+    + change ANack with (classify (an_result (mkAnswer (RStatus 503) 0)) 1 (rc_max ex_rc2)).
+      eapply (round_intro Mem ex_cfg ex_rc2 7 (mkAnswer (RStatus 503) 0) ex_s0 10 None None 1 0 (mkOracle [(7, 100)]%N [] [] []) _ _ 100%N 1 _ 11 (mkOracle [] [] [] [])).
+      * vm_compute. reflexivity.
+      * left. reflexivity.
+      * vm_compute. reflexivity.
+      * vm_compute. reflexivity.
+    + change TDelivered with TDelivered.
+      eapply cq_ack.
+      change AAck with (classify (an_result (mkAnswer (RStatus 200) 0)) 2 (rc_max ex_rc2)).
+      eapply (round_intro Mem ex_cfg ex_rc2 7 (mkAnswer (RStatus 200) 0) _ 2000000000 None None 1 0 (mkOracle [(7, 101)]%N [] [] []) _ _ 101%N 2 _ 2000000001 (mkOracle [] [] [] [])).
+      * vm_compute. reflexivity.
+      * left. reflexivity.
+      * vm_compute. reflexivity.
+      * vm_compute. reflexivity.
+  - vm_compute. split; [reflexivity|]. eexists. split; reflexivity.
+Qed.
+
 Print Assumptions C06_micro_batch_settles_every_leased_message_once.
 Print Assumptions C06_micro_batch_never_extends.
 Print Assumptions C06_micro_batch_on_the_queue.
 Print Assumptions C06_settlement_is_the_classification.
+Print Assumptions C06_cycle_on_the_queue_is_the_cycle.
+Print Assumptions C06_cycle_on_the_queue_sends_bounded.
